@@ -42,9 +42,15 @@ def rg_setup(ctx):
     if removed is not None:
         removed_rec = Rec("set", methods={"update": lambda c, s_, a, k: removed.update(a[0] if not isinstance(a[0], Rec) else [])})
     env = {"node": node, "params": list(params), "removed_params": removed_rec}
+    # Class.method(instance, ...): the first positional is the instance, the remaining positions are those of the parameters (self is not among `params`)
+    instance_given = n_pos >= 1 and starred_at != 0 and ctx.choose(2, "the-first-positional-is-the-instance(Class.method(instance, ...))") == 1
+    if instance_given:
+        env["instance_given"] = True
     consts = {"ast.Starred": ClassRef("Starred")}
     inline = {"ast_get_call_positional_indexes": MOD + ":ast_get_call_positional_indexes", "ast_get_call_keyword_names": MOD + ":ast_get_call_keyword_names"}
     given_pos = {i for i in range(n_pos) if i != starred_at}
+    if instance_given:
+        given_pos = {i - 1 for i in given_pos if i > 0}
     given_kw = {f"p{i}" for i in range(n) if kw_mask >> i & 1}
     return Setup(env=env, consts=consts, inline=inline, data=dict(params=params, given_pos=given_pos, given_kw=given_kw, removed=removed))
 
@@ -509,11 +515,14 @@ def gpak_setup(ctx):
         "add_node_origins": lambda c, s_, a, k: c.event("origins", list(a[0]), a[1]),
         "get_parameters_attr_use_in_members": lambda c, s_, a, k: (c.event("attr-use", a[0]), params_for(("attr", a[0]), ["a1", "a2"]))[1],
         "log_debug": lambda c, s_, a, k: None,
+        # (its own unit) Class.method(instance, ...) of a known class: the first positional is the instance
+        "is_unbound_method_call": lambda c, s_, a, k: (c.event("unbound?", a[0], a[1:]), a[0].attrs["i"] % 2 == 1)[1],
     })
 
     def remove_given(c, a, k):
-        node, params, removed = a
+        node, params, removed = a[:3]
         c.event("remove-given", node, list(params), removed)
+        c.event("instance-flag", node, a[3] if len(a) > 3 else k.get("instance_given", False))
         if node.attrs["hard"] and any(p.attrs["name"] == "h" for p in params):
             removed.add("h")  # (its own unit: only names actually taken out of the list are recorded)
             return [p for p in params if p.attrs["name"] != "h"]
@@ -547,6 +556,11 @@ def gpak_setup(ctx):
 def gpak_post(ctx, st, result):
     d = st.data
     ev = ctx.events
+    flags = {id(e[1]): e[2] for e in ev if e[0] == "instance-flag"}
+    asked = {id(e[1]) for e in ev if e[0] == "unbound?"}
+    known = [node for kind, _, node, _ in d["uses"] if kind == "call-of-a-known-component"]
+    ctx.oblige("post", "for-a-call-of-a-known-component-the-hard-coded-positions-are-counted-after-the-instance-exactly-when-it-is-Class.method(instance, ...);for-super()-calls-never",
+               all(id(n) in asked and flags.get(id(n)) is (n.attrs["i"] % 2 == 1) for n in known) and all(not f for i, f in flags.items() if i not in {id(n) for n in known}))
     tag = "[" + ",".join(f"{k}{'+h' if h else ''}" for k, h, _, _ in d["uses"]) + f";{'method' if d['has_parent'] else 'function'}]"
     if not d["uses"]:
         ctx.oblige("post", "**kwargs-is-not-used-anywhere(or there is none)=>nothing-is-offered" + tag, result == ([], []))
@@ -598,6 +612,33 @@ def gpak_post(ctx, st, result):
                all(len(e[1]) == 1 and e[1][0][0] == "component-of" and e[2] is d["logger"] for e in sig) and len(sig) == len([1 for k, _, _, _ in d["uses"] if k == "call-of-a-known-component"]))
 
 
+def um_setup(ctx):
+    form = ["K.m(inst, ..)", "K.m(*a, ..)", "K.m()", "self.m(x)", "f(x)", "obj.attr.m(x)"][ctx.choose(6, "call-form")]
+    member = ["instance-method", "staticmethod", "classmethod", "missing"][ctx.choose(4, "member-kind")]
+    target = ["class", "function"][ctx.choose(2, "resolved-to")]
+    with_method = ctx.choose(2, "method-name-known") == 1
+    ctx.classes.add("Name", []); ctx.classes.add("Attribute", []); ctx.classes.add("Starred", []); ctx.classes.add("Call", [])
+    name = lambda i: Rec("Name", attrs={"id": i})  # noqa: E731
+    func = {"K.m(inst, ..)": Rec("Attribute", attrs={"value": name("K"), "attr": "m"}), "K.m(*a, ..)": Rec("Attribute", attrs={"value": name("K"), "attr": "m"}), "K.m()": Rec("Attribute", attrs={"value": name("K"), "attr": "m"}),
+            "self.m(x)": Rec("Attribute", attrs={"value": name("self"), "attr": "m"}), "f(x)": name("f"), "obj.attr.m(x)": Rec("Attribute", attrs={"value": Rec("Attribute", attrs={"value": name("obj"), "attr": "attr"}), "attr": "m"})}[form]
+    args = {"K.m(inst, ..)": [name("inst"), name("x")], "K.m(*a, ..)": [Rec("Starred")], "K.m()": []}.get(form, [name("x")])
+    node = Rec("Call", attrs={"func": func, "args": args, "keywords": []})
+    comp = Rec("class K") if target == "class" else Rec("function f")
+    attr = {"instance-method": Rec("function"), "staticmethod": Rec("staticmethod"), "classmethod": Rec("classmethod"), "missing": None}[member]
+    calls = {"inspect.isclass": lambda c, a, k: a[0] is comp and target == "class", "inspect.getattr_static": lambda c, a, k: attr if (a[0] is comp and a[1] == "m") else (a[2] if len(a) > 2 else None),
+             "is_method": lambda c, a, k: isinstance(a[0], Rec) and a[0].cls == "function"}
+    consts = {"ast": Rec("module ast", attrs={"Attribute": ClassRef("Attribute"), "Name": ClassRef("Name"), "Starred": ClassRef("Starred")})}
+    return Setup(env={"self": Rec("ParametersVisitor", attrs={"self_name": "self"}), "node": node, "function_or_class": comp, "method_or_property": "m" if with_method else None}, calls=calls, consts=consts,
+                 data=dict(form=form, member=member, target=target, with_method=with_method))
+
+
+def um_post(ctx, st, result):
+    d = st.data
+    want = d["form"] == "K.m(inst, ..)" and d["member"] == "instance-method" and d["target"] == "class" and d["with_method"]
+    ctx.oblige("post", f"the-instance-is-handed-over-explicitly-iff:a-known-class's-instance-method-called-through-the-class-name-with-a-plain-first-positional[{d['form']},{d['member']},{d['target']},method={d['with_method']}]", result is want or result == want)
+
+
+UNITS.append(Unit("C13", MOD + ":ParametersVisitor.is_unbound_method_call", um_setup, um_post, never13, trusted=["inspect.isclass / inspect.getattr_static; is_method: its own unit (r2_resolver)"]))
 UNITS.append(Unit("C13", MOD + ":ParametersVisitor.get_parameters_args_and_kwargs", gpak_setup, gpak_post, never13, max_paths=60000, expect_cover=("return",),
                   trusted=["find_values_usage lists the uses of *args / **kwargs in the function body in source order (static analysis; harness)", "get_mro_parameters, remove_given_parameters, group_parameters, split_args_and_kwargs, get_signature_parameters: their own units",
                            "get_node_component / get_parameters_attr_use_in_members / get_kwargs_pop_or_get_parameter by contract (the latter: its own unit)", "ast_is_* helpers classify the node shapes as their names say"]))
